@@ -243,6 +243,21 @@ def run(R):
                                  K=give(rr, S["K"], R, "K"), baseline=give(rr, S["baseline"], R, "baseline"), error="raise")
             drain()
             R.count("batch-call:rows=%d" % len(sysjobs))
+            if stb == "value_error" and "outside the convex" in str(outb) and any(j[2] != "inside" for j in sysjobs):
+                # the batch contains targets ON the boundary of the gamut: the gate decides only strictly inside / strictly outside
+                # (C03), and qhull's point location may answer differently for a boundary point inside a batch (it walks from the
+                # previously located simplex). Not asserted; the batch is asked again with the strictly-inside rows only.
+                R.count("batch-with-boundary-rows-rejected-by-gate")
+                sysjobs = [j for j in sysjobs if j[2] == "inside"]
+                if len(sysjobs) >= 2:
+                    Bm = np.array([j[0]["b"] for j in sysjobs])
+                    with warnings.catch_warnings():
+                        warnings.simplefilter("ignore")
+                        stb, outb = call(range_of_solutions, give(rr, Bm, R, "B"), give(rr, S["A"], R, "A"), give(rr, S["lb"], R, "lb"), give(rr, S["ub"], R, "ub"),
+                                         K=give(rr, S["K"], R, "K"), baseline=give(rr, S["baseline"], R, "baseline"), error="raise")
+                    drain()
+                else:
+                    sysjobs = []
             for r_, j in enumerate(sysjobs):
                 j[0]["_batch"] = (stb, (np.asarray(outb[0])[r_], np.asarray(outb[1])[r_]) if stb == "ok" else outb)
     R.driver.run()
